@@ -380,7 +380,8 @@ theorem silentUnlink_set (y : MDir) (id : Nat) (c : Bytes) (r : Run) (hr : r.d =
 /-- AddMessage after the cap loop, from the loop's invariant, for EVERY fault set: the events are those of the loop; the
     directory is well-formed and lists `l1` + the new entry with its content (answer ok), or a list of which `l1` is a
     suffix (answer err) — then a call with index ≥ `ks` was refused, and the list is `l1` itself unless a call with
-    index < `ks` was refused as well; the raws `l1` names are untouched -/
+    index < `ks` was refused as well (in any case it names only ids that were listed when the operation began); the raws
+    `l1` names are untouched -/
 theorem addTail_spec (S : List Nat) (d0 : Option MDir) (l1 : List FEnt) (id : Nat) (hdr : Meta) (src : Bytes) (r1 : Run)
     (hinv : Inv C F b S d0 r1 l1) (hfresh : id ∉ S) :
     (addTail C F b l1 id hdr src r1).events = r1.events ∧
@@ -389,7 +390,7 @@ theorem addTail_spec (S : List Nat) (d0 : Option MDir) (l1 : List FEnt) (id : Na
       (((addTail C F b l1 id hdr src r1).res = .ok ∧ ld = l1 ++ [newEnt id hdr src] ∧
           dcontent (addTail C F b l1 id hdr src r1).d id = some src) ∨
        ((addTail C F b l1 id hdr src r1).res = .err ∧ l1 <:+ ld ∧
-          ∃ ks, (∃ j, ks ≤ j ∧ F j = true) ∧ (ld ≠ l1 → FaultIn F 0 ks))) := by
+          ∃ ks, (∃ j, ks ≤ j ∧ F j = true) ∧ (ld ≠ l1 → FaultIn F 0 ks) ∧ ∀ e ∈ ld, e.id ∈ S)) := by
   obtain ⟨ld, hg, hsuf, hS, hflt, hcont⟩ := hinv
   have hgy : Good C b ld (some (r1.d.getD MDir.empty)) := by
     cases hd : r1.d with
@@ -413,7 +414,7 @@ theorem addTail_spec (S : List Nat) (d0 : Option MDir) (l1 : List FEnt) (id : Na
       simp [addTail, hok2]
     rw [e]
     obtain ⟨s5, s6⟩ := s4 hok2
-    refine ⟨s1, ld, ?_, ?_, Or.inr ⟨rfl, hsuf, r1.k, hfault s6 (Nat.le_refl _), hflt⟩⟩
+    refine ⟨s1, ld, ?_, ?_, Or.inr ⟨rfl, hsuf, r1.k, hfault s6 (Nat.le_refl _), hflt, hS⟩⟩
     · show Good C b ld (calls F r1 (createDirH r1.d ++ [(.createRaw id, [])])).1.d
       rcases s5 with s5 | s5 <;> rw [s5]
       · exact hg
@@ -435,7 +436,7 @@ theorem addTail_spec (S : List Nat) (d0 : Option MDir) (l1 : List FEnt) (id : Na
       obtain ⟨⟨c, t5⟩, t6⟩ := t4 hok3
       obtain ⟨u1, u2⟩ := silentUnlink_set (r1.d.getD MDir.empty) id c _ t5
       refine ⟨by simp only [Out.of]; rw [u2, t1, s1], ld, ?_, ?_,
-        Or.inr ⟨rfl, hsuf, r1.k, hfault t6 s2, hflt⟩⟩
+        Or.inr ⟨rfl, hsuf, r1.k, hfault t6 s2, hflt, hS⟩⟩
       · simp only [Out.of]
         rw [u1]
         exact good_raws C b _ hgy (fun e' he' => rawGet_del_ne _ _ _ (hneS e' he'))
@@ -456,7 +457,7 @@ theorem addTail_spec (S : List Nat) (d0 : Option MDir) (l1 : List FEnt) (id : Na
         obtain ⟨⟨t, w5⟩, w6⟩ := w4 hok4
         obtain ⟨u1, u2⟩ := silentUnlink_set { (r1.d.getD MDir.empty) with tmp := t } id src _ w5
         refine ⟨by simp only [Out.of]; rw [u2, w1, t1, s1], ld, ?_, ?_,
-          Or.inr ⟨rfl, hsuf, r1.k, hfault w6 (by omega), hflt⟩⟩
+          Or.inr ⟨rfl, hsuf, r1.k, hfault w6 (by omega), hflt, hS⟩⟩
         · simp only [Out.of]
           rw [u1]
           have hgt : Good C b ld (some { (r1.d.getD MDir.empty) with tmp := t }) := hgy
@@ -515,7 +516,8 @@ theorem addF_spec (par : List FsStep) (cap : Nat) (d : Option MDir) (l0 : List F
       (((addF C F b par cap d id hdr src).res = .ok ∧ ld = l0.drop (if cap > 0 then nEvict cap l0 else 0) ++ [newEnt id hdr src] ∧
           dcontent (addF C F b par cap d id hdr src).d id = some src) ∨
        ((addF C F b par cap d id hdr src).res = .err ∧ l0.drop (if cap > 0 then nEvict cap l0 else 0) <:+ ld ∧
-          ∃ ks, (∃ j, ks ≤ j ∧ F j = true) ∧ (ld ≠ l0.drop (if cap > 0 then nEvict cap l0 else 0) → FaultIn F 0 ks))) := by
+          ∃ ks, (∃ j, ks ≤ j ∧ F j = true) ∧ (ld ≠ l0.drop (if cap > 0 then nEvict cap l0 else 0) → FaultIn F 0 ks) ∧
+            ∀ e ∈ ld, e.id ∈ l0.map (·.id))) := by
   have h0 : Inv C F b (l0.map (·.id)) d (Run.start d) l0 :=
     ⟨l0, hg, List.suffix_refl _, fun e he => List.mem_map_of_mem he, fun h => absurd rfl h, fun _ _ => rfl⟩
   simp only [addF, good_listing hg]
